@@ -66,7 +66,18 @@ def covOf (p : Pb) (op : Op) (r : Res) : List String :=
   let exact := if r.pb.bpos + 1 = r.pb.size then ["full-to-last-byte"] else []
   grow ++ refused ++ kind ++ exact
 
+/-- `peek`: look at the buffer without touching it (the generator issues it on a fresh buffer only: a new
+print buffer is the empty string, NUL-terminated) -/
+def peekLine (p : Pb) : String :=
+  let b := contents p
+  s!"0 {b.length} {toHex b} nul={nulStr p} ## 0 {p.size} nul={nulStr p}"
+
 def step (s : St) (w : List String) : St × Out :=
+  if w = ["peek"] then
+    match s.pb with
+    | none => (s, { model := "model-faulted-earlier" })
+    | some p => (s, { model := peekLine p, spec := s!"0 {s.spec.length} {toHex s.spec} nul=1", cov := ["peek"] })
+  else
   match parseOp w with
   | none => (s, { model := "bad-op" })
   | some op =>
